@@ -88,6 +88,7 @@ fn main() {
     }
     // Spawn on a big stack: some preludes recurse.
     drop(prop);
+    let id_for_msg = id.clone();
     let code = std::thread::Builder::new()
         .stack_size(256 << 20)
         .spawn(move || {
@@ -96,6 +97,10 @@ fn main() {
         })
         .unwrap()
         .join()
-        .unwrap_or(3);
+        .unwrap_or_else(|_| {
+            // a panic of the harness itself (not of the code under test) outside a worker
+            println!("INFRASTRUCTURE property={} the harness panicked: {}", id_for_msg, abv::core::last_panic_message());
+            3
+        });
     std::process::exit(code);
 }
